@@ -5,13 +5,14 @@ open Frame
 type op =
   | W of int * int          (* seed, len *)
   | RA of int * int         (* ReadAt offset, len *)
+  | FileGone                (* file backend: the owner closes the underlying *os.File (so that the store's own close fails later) *)
   | RR of int               (* Reader.Read len *)
   | Seek of int | Valid | Range | Close
 
 type case = { backend : string; cap : int; ops : (op * bool * bool) list }   (* op, parks, wakes *)
 
 let id = "C18"
-let rule = "operation sequences (Write k, ReadAt(o,k), Reader.Read, SeekTo, IsValid, DataRange, Close) on memory backlogs of 1, 2, 3, 5 and 6 alignment units (4096..24576 bytes: powers of two and not) and \
+let rule = "operation sequences (Write k, ReadAt(o,k), Reader.Read, SeekTo, IsValid, DataRange, Close; on the file backend also Close after the owner has closed the file) on memory backlogs of 1, 2, 3, 5 and 6 alignment units (4096..24576 bytes: powers of two and not) and \
 file backlogs of 4 MiB; write sizes around 1, cap-1, cap, cap+1, 2cap+5; read offsets at distance 0 (parks), 1, cap-1, cap, cap+1 behind the write position, 1 and 5 beyond it, and far beyond it (2^40 and the top of the uint64 range, 2^64-k with k around 1, 1000 and the capacity) - the same for SeekTo; parked reads are woken by later writes / close; non-trivial = at least one wrap-around or one parked read; distinct by wire line"
 
 let pay_byte seed i = Char.chr ((seed * 131 + i * 7 + (i lsr 8) * 13 + (i lsr 16)) land 255)
@@ -81,6 +82,10 @@ let gen_seq st backend cap nops =
     | `S -> let d = rnd_pick st [ 0; 1; size - 1; size; size + 1; -1; rnd_int st (size + 2) ] in
         if rnd_int st 12 = 0 then Seek (rnd_pick st [ -1; -1000; - (1 + rnd_int st size) ]) else Seek (max 0 (!total - d))
     | `V -> Valid | `D -> Range | `C -> Close) in
+  (* file backend: half of the time the owner has already closed the file when the backlog is closed - readers parked at that
+     moment must be released all the same (nothing follows the Close in that case) *)
+  let raw = if big && rnd_bool st then
+      (let rec cut = function [] -> [] | Close :: _ -> [ FileGone; Close ] | o :: r -> o :: cut r in cut raw) else raw in
   { backend; cap; ops = annotate backend cap raw }
 
 let gen st tier =
@@ -96,12 +101,14 @@ let corpus = [
                                         (W (3, 7), false, true); (Range, false, false); (Close, false, false); (RA (4200, 5), false, false) ] };
   (* offsets at the top of the uint64 range during the first lap of the file ring (and of a memory ring) *)
   { backend = "file"; cap = 1; ops = annotate "file" 1 [ W (1, 5000); RA (-1, 1); RA (-1000, 10); Range; Seek (-1000); Valid; RR 1000; RA (4999, 1); RA (1 lsl 40, 1) ] };
-  { backend = "mem"; cap = 5000; ops = annotate "mem" 5000 [ W (1, 5000); RA (-1, 1); RA (-1000, 10); Seek (-1); Valid; RR 10; RA (- 8192, 4); Range ] } ]
+  { backend = "mem"; cap = 5000; ops = annotate "mem" 5000 [ W (1, 5000); RA (-1, 1); RA (-1000, 10); Seek (-1); Valid; RR 10; RA (- 8192, 4); Range ] };
+  (* readers parked at the write position of a file backlog whose file the owner has already closed: Close must release them *)
+  { backend = "file"; cap = 1; ops = annotate "file" 1 [ W (1, 100); RA (100, 10); RA (100, 5); FileGone; Close ] } ]
 
 let op_str (op, parks, wakes) =
   (match op with
    | W (s, l) -> Printf.sprintf "w%d,%d" s l | RA (o, l) -> Printf.sprintf "r%s,%d" (soff o) l | RR l -> Printf.sprintf "R%d" l
-   | Seek o -> Printf.sprintf "s%s" (soff o) | Valid -> "v" | Range -> "d" | Close -> "c")
+   | Seek o -> Printf.sprintf "s%s" (soff o) | Valid -> "v" | Range -> "d" | Close -> "c" | FileGone -> "x")
   ^ (if parks then "!" else "") ^ (if wakes then "^" else "")
 
 let to_line c = Printf.sprintf "seq %s %d %s" c.backend c.cap (String.concat ";" (List.map op_str c.ops))
@@ -147,6 +154,7 @@ let run_model c =
      | Seek off -> seek := off; res.(i) <- Printf.sprintf "s:%b" (Model.reader_valid !r (noff !seek))
      | Valid -> res.(i) <- Printf.sprintf "v:%b" (Model.reader_valid !r (noff !seek))
      | Range -> let (lo, hi) = Model.data_range !r in res.(i) <- Printf.sprintf "d:%d:%d:ok" (int_of_n lo) (int_of_n hi)
+     | FileGone -> res.(i) <- "x"
      | Close -> r := Model.close !r; res.(i) <- "c");
     ignore wakes;
     (* parked reads are re-evaluated after every state change that broadcasts *)
